@@ -78,7 +78,7 @@ class Prop(core.Prop):
 
     def bounds(self, tier):
         return {'t': [1, 2] if tier == 'quick' else [1, 2, 3], 'z': [1, 2], 'x': [1, 2, 3],
-                'kinds': [['A', 'M', 'B', 'X', 'Zx', 'S', 'Mn'], ['A', 'M', 'B', 'Zx', 'S']],
+                'kinds': [['A', 'M', 'B', 'X', 'Zx', 'S', 'Mn', 'Kxx'], ['A', 'M', 'B', 'Zx', 'S']],
                 'functions': [f[1] for f in FN],
                 'triples': 'same function on all three (quick) / full product (thorough)'}
 
